@@ -111,6 +111,8 @@ def generate(rng, index, tier):
             'speed': rng.choice(speeds + [5 * max(ratio * 1024 // 10, 1)] * 6), 'omit': omit}
     if rng.random() < 0.15:
         plan['obf_dial'] = True
+    if rng.random() < 0.1:
+        plan['nameless'] = rng.choice(names)
     n = rng.randint(3, 10)
     events = []
     acc, con = [], []            # peers with a connection from alice / towards alice (guess)
@@ -241,6 +243,10 @@ def corpus(tier):
     for level in (0, 3):
         out.append(dict(_plan([conn('p2'), pot('p0', 'p1'), _ann('p0', order='lr', level=level), conn('p3', gap=3.0),
                                _ann('p0', order='l', level=level + 1, gap=3.0)]), obf_dial=True))
+    # 1c. a child that introduces itself with an empty user name, goes away again, another child comes
+    for how in ('close', 'abort'):
+        out.append(dict(_plan([conn('p2'), conn('p3', gap=0.5), close('p2', via='con', how=how, gap=2.0), conn('p1', gap=2.0),
+                               pot('p0', gap=1.0), _ann('p0')]), nameless='p2'))
     # 2. the parent announces new values (level, root, both, level 0) with children present
     for order, level, root in (('l', 5, 'r1'), ('r', 2, 'r2'), ('lr', 4, 'r2'), ('rl', 4, 'r2'), ('l', 0, 'r1'),
                                ('lr', 0, 'p0')):
@@ -519,7 +525,13 @@ def _run(world: World, plan):
         world.net.connect_hook = connect_hook
 
     async def child_connect(peer, ticket):
-        if plan.get('obf_dial'):
+        if plan.get('nameless') == peer.name:
+            # a peer that introduces itself with an empty user name (legal on the wire)
+            world.net.fired['distributed_peer_with_empty_name'] += 1
+            link = await peer.connect(alice.host.ip, 60000)
+            link.send(M.PeerInit.Request('', 'D', ticket))
+            link.typ = 'D'
+        elif plan.get('obf_dial'):
             # a peer that prefers obfuscated ports: only the init message is obfuscated on a distributed connection
             world.net.fired['distributed_dial_in_over_obfuscated_port'] += 1
             link = await peer.connect_direct(alice.host.ip, 60001, 'D', ticket, obfuscated=True)
